@@ -30,6 +30,8 @@ type ctxt struct {
 	frags []fedcat.Frag
 	vars  []fedcat.Binding
 	errs  []ExecError
+	// ctr: the world's counter (root mutation fields are executed serially in document order: execSet iterates in order)
+	ctr int64
 }
 
 // ExecError is one GraphQL error of the simulated server (a non-null violation).
@@ -74,9 +76,25 @@ func withDefaults(defs []fedcat.VarDef, vars []fedcat.Binding) []fedcat.Binding 
 	return out
 }
 
+// valOf mirrors ValOf of the spec: variables substituted (also inside list / object literals), enum literals as strings.
 func (c *ctxt) valOf(x Val) Val {
-	if x.T == "v" {
+	switch x.T {
+	case "v":
 		return c.varVal(x.S)
+	case "e":
+		return fedcat.Str(x.S)
+	case "l":
+		out := make([]Val, len(x.L))
+		for i, y := range x.L {
+			out[i] = c.valOf(y)
+		}
+		return fedcat.List(out)
+	case "o":
+		out := make([]Val, len(x.L))
+		for i, y := range x.L {
+			out[i] = c.valOf(y)
+		}
+		return fedcat.Object(x.K, out)
 	}
 	return x
 }
@@ -188,7 +206,7 @@ func Dig(v Val) string {
 		return "~"
 	case "x":
 		return "?"
-	case "s":
+	case "s", "e":
 		return v.S
 	case "i":
 		return strconv.FormatInt(v.I, 10)
@@ -307,8 +325,14 @@ func (c *ctxt) resolve(tn string, h handle, fd *fedcat.FieldDef, args []fedcat.A
 	m := c.m
 	plain := func() Val {
 		dv := m.fieldData(h.id, fd.Name)
-		if dv.T == "fn" {
+		switch dv.T {
+		case "fn":
 			return applyFn(dv, c.argVal(args, dv.A))
+		case "ctr":
+			if x := c.argVal(args, dv.A); x.T == "i" {
+				c.ctr += x.I
+			}
+			return fedcat.Int(c.ctr)
 		}
 		return dv
 	}
@@ -495,12 +519,19 @@ func (c *ctxt) completeInner(w []string, n string, sub []fedcat.Sel, raw Val, pr
 	return ok(fedcat.Null)
 }
 
-// Exec mirrors Exec(M, doc, vars) of the spec.
-func Exec(m *Mode, doc *fedcat.Doc, vars []fedcat.Binding) (data Val, hasErr bool, errs []ExecError) {
-	c := &ctxt{m: m, frags: doc.Frags, vars: withDefaults(doc.Vars, vars)}
-	r := c.execSet(doc.Sel, handle{id: "Q", rep: fedcat.Absent}, nil)
-	if r.r {
-		return fedcat.Null, true, c.errs
+// Exec mirrors Exec(M, doc, vars) of the spec; seq0 = the world's counter before, the counter after is returned.
+func Exec(m *Mode, doc *fedcat.Doc, vars []fedcat.Binding, seq0 int64) (data Val, hasErr bool, errs []ExecError, seq int64) {
+	c := &ctxt{m: m, frags: doc.Frags, vars: withDefaults(doc.Vars, vars), ctr: seq0}
+	root := "Q"
+	if doc.Op == "mutation" {
+		root = "M"
 	}
-	return r.v, r.e, c.errs
+	if _, ok := m.U.Objs[root]; !ok {
+		return fedcat.Null, true, []ExecError{{Message: "no root object " + root}}, seq0
+	}
+	r := c.execSet(doc.Sel, handle{id: root, rep: fedcat.Absent}, nil)
+	if r.r {
+		return fedcat.Null, true, c.errs, c.ctr
+	}
+	return r.v, r.e, c.errs, c.ctr
 }
